@@ -63,36 +63,36 @@ Proof.
   induction frames as [|f r IH]; [cbn; lia|]. rewrite stream_cons, app_length, unit_len. cbn [length]. lia.
 Qed.
 
-(* ------------------------------------------------------------------ expect *)
+(* ------------------------------------------------------------------ rd_expect *)
 Section Expect.
   Variable ok : list N -> bool.
 
-  Lemma expect_all frames : forallb ok frames = true -> expect ok frames = (frames, NeedMore).
+  Lemma expect_all frames : forallb ok frames = true -> rd_expect ok frames = (frames, RdNeedMore).
   Proof.
     induction frames as [|f r IH]; cbn; [reflexivity|]. intros H. apply andb_true_iff in H. destruct H as [Hf Hr].
     rewrite Hf, (IH Hr). reflexivity.
   Qed.
 
   Lemma expect_app_ok fs rem : forallb ok fs = true ->
-    expect ok (fs ++ rem) = (fs ++ fst (expect ok rem), snd (expect ok rem)).
+    rd_expect ok (fs ++ rem) = (fs ++ fst (rd_expect ok rem), snd (rd_expect ok rem)).
   Proof.
     induction fs as [|f r IH]; cbn; intros H.
-    - now destruct (expect ok rem).
+    - now destruct (rd_expect ok rem).
     - apply andb_true_iff in H. destruct H as [Hf Hr]. rewrite Hf, (IH Hr). reflexivity.
   Qed.
 
   Lemma expect_app_bad fs bad rem : forallb ok fs = true -> ok bad = false ->
-    expect ok (fs ++ bad :: rem) = (fs, Closed).
+    rd_expect ok (fs ++ bad :: rem) = (fs, RdClosed).
   Proof.
     intros H Hb. rewrite (expect_app_ok _ _ H). cbn. rewrite Hb. cbn. now rewrite app_nil_r.
   Qed.
 
   (* the frames delivered are a prefix of the frames sent: in order, none twice, none invented *)
-  Lemma expect_prefix frames : exists rest, frames = fst (expect ok frames) ++ rest.
+  Lemma expect_prefix frames : exists rest, frames = fst (rd_expect ok frames) ++ rest.
   Proof.
     induction frames as [|f r [rest IH]]; cbn; [now exists []|].
     destruct (ok f); [|now exists (f :: r)].
-    destruct (expect ok r) as [fs st]. cbn in *. exists rest. now rewrite IH at 1.
+    destruct (rd_expect ok r) as [fs st]. cbn in *. exists rest. now rewrite IH at 1.
   Qed.
 End Expect.
 
@@ -167,7 +167,7 @@ Section Tcp.
   (* decode-once, TCP reader: invariant  br ++ concat segs = stream of the frames not yet delivered *)
   Lemma tcp_conn_frames : forall frames fuel br segs,
     Forall fits frames -> br ++ concat segs = stream_of frames -> length (stream_of frames) < fuel ->
-    tcp_conn ok cap fuel br segs = Ok (expect ok frames).
+    tcp_conn ok cap fuel br segs = Ok (rd_expect ok frames).
   Proof.
     induction frames as [|f r IH]; intros fuel br segs Hf E Hl.
     - destruct fuel as [|fu]; [lia|]. cbn [tcp_conn].
@@ -184,13 +184,13 @@ Section Tcp.
       destruct (read_full_spec (length f) (length f) br1 segs1 [] (le_n _)) as [Ho2 _].
       destruct Ho2 as [br2 [segs2 [S1 S2]]]; [rewrite R2, app_length; lia|].
       rewrite S1, R2. cbn [app]. rewrite firstn_exact. rewrite R2, skipn_exact in S2.
-      cbn [expect]. destruct (ok f); [|reflexivity].
-      rewrite (IH fu br2 segs2 Hfr S2 ltac:(lia)). cbn. now destruct (expect ok r).
+      cbn [rd_expect]. destruct (ok f); [|reflexivity].
+      rewrite (IH fu br2 segs2 Hfr S2 ltac:(lia)). cbn. now destruct (rd_expect ok r).
   Qed.
 
   Theorem tcp_decode_once frames segs :
     Forall fits frames -> segmentation segs (stream_of frames) ->
-    tcp_run ok cap segs = Ok (expect ok frames).
+    tcp_run ok cap segs = Ok (rd_expect ok frames).
   Proof.
     unfold segmentation, tcp_run. intros Hf E. apply tcp_conn_frames; auto.
     rewrite E. lia.
@@ -227,23 +227,23 @@ Proof. unfold cap1k. lia. Qed.
 Section Gnet.
   Variable ok : list N -> bool.
 
-  Lemma next_short n inb : length inb < n -> next (Z.of_nat n) inb = ([], inb).
+  Lemma next_short n inb : length inb < n -> gnet_next (Z.of_nat n) inb = ([], inb).
   Proof.
-    intros H. unfold next. assert ((Z.of_nat (length inb) <? Z.of_nat n)%Z = true) as -> by (apply Z.ltb_lt; lia).
+    intros H. unfold gnet_next. assert ((Z.of_nat (length inb) <? Z.of_nat n)%Z = true) as -> by (apply Z.ltb_lt; lia).
     reflexivity.
   Qed.
 
-  Lemma next_enough n inb : 1 <= n -> n <= length inb -> next (Z.of_nat n) inb = (firstn n inb, skipn n inb).
+  Lemma next_enough n inb : 1 <= n -> n <= length inb -> gnet_next (Z.of_nat n) inb = (firstn n inb, skipn n inb).
   Proof.
-    intros H1 H2. unfold next.
+    intros H1 H2. unfold gnet_next.
     assert ((Z.of_nat (length inb) <? Z.of_nat n)%Z = false) as -> by (apply Z.ltb_ge; lia).
     assert ((Z.of_nat n <=? 0)%Z = false) as -> by (apply Z.leb_gt; lia).
     now rewrite Nat2Z.id.
   Qed.
 
-  Lemma next_zero inb : next 0%Z inb = (inb, []).
+  Lemma next_zero inb : gnet_next 0%Z inb = (inb, []).
   Proof.
-    unfold next. assert ((Z.of_nat (length inb) <? 0)%Z = false) as -> by (apply Z.ltb_ge; lia). reflexivity.
+    unfold gnet_next. assert ((Z.of_nat (length inb) <? 0)%Z = false) as -> by (apply Z.ltb_ge; lia). reflexivity.
   Qed.
 
   Lemma copy_into_nil buf : copy_into buf 0 [] = Ok (buf, 0).
@@ -278,9 +278,9 @@ Section Gnet.
     end.
 
   (* outcome of one pass from "read:" (inb0 = what was buffered when the pass began) *)
-  Definition iter_post (res : res iter) (inb0 tail : list N) (frames : list (list N)) : Prop :=
-    (exists st' inb', res = Ok (Wait st' inb') /\ R st' frames (inb' ++ tail) /\ stuck st' inb') \/
-    (exists f r st' inb', frames = f :: r /\ res = Ok (Got f st' inb') /\ g_buf st' = None /\
+  Definition iter_post (res : res giter) (inb0 tail : list N) (frames : list (list N)) : Prop :=
+    (exists st' inb', res = Ok (GWait st' inb') /\ R st' frames (inb' ++ tail) /\ stuck st' inb') \/
+    (exists f r st' inb', frames = f :: r /\ res = Ok (GGot f st' inb') /\ g_buf st' = None /\
                           inb' ++ tail = stream_of r /\ length inb' < length inb0).
 
   Lemma body_phase_post buf inb0 inb tail f r :
@@ -386,7 +386,7 @@ Section Gnet.
 
   Lemma gnet_feed_R : forall segs st inb frames,
     Forall good frames -> R st frames (inb ++ concat segs) -> stuck st inb ->
-    exists tr, gnet_feed ok st inb segs = Ok (fst (expect ok frames), snd (expect ok frames), tr).
+    exists tr, gnet_feed ok st inb segs = Ok (fst (rd_expect ok frames), snd (rd_expect ok frames), tr).
   Proof.
     induction segs as [|s r IH]; intros st inb frames Hg HR Hs.
     - cbn [concat] in HR. rewrite (stuck_end st inb frames Hg HR Hs). cbn. eauto.
@@ -405,13 +405,13 @@ Section Gnet.
 
   Theorem gnet_decode_once frames segs :
     Forall good frames -> segmentation segs (stream_of frames) ->
-    gnet_run ok segs = Ok (expect ok frames).
+    gnet_run ok segs = Ok (rd_expect ok frames).
   Proof.
     unfold segmentation, gnet_run. intros Hg E.
     destruct (gnet_feed_R segs g_init [] frames Hg) as [tr Et].
     - unfold R. cbn. exact E.
     - reflexivity.
-    - rewrite Et. cbn. now destruct (expect ok frames).
+    - rewrite Et. cbn. now destruct (rd_expect ok frames).
   Qed.
 
   (* ---- safety on arbitrary octets ---- *)
@@ -421,14 +421,14 @@ Section Gnet.
     | Some b => g_readN st = 0 /\ if g_hdr st then length b = 2 else 1 <= length b
     end.
 
-  Definition safe_post (res : res iter) (inb0 : list N) : Prop :=
-    (exists st' inb', res = Ok (Wait st' inb') /\ Inv st') \/
-    (exists m st' inb', res = Ok (Got m st' inb') /\ g_buf st' = None /\ (length inb' < length inb0 \/ inb' = [])).
+  Definition safe_post (res : res giter) (inb0 : list N) : Prop :=
+    (exists st' inb', res = Ok (GWait st' inb') /\ Inv st') \/
+    (exists m st' inb', res = Ok (GGot m st' inb') /\ g_buf st' = None /\ (length inb' < length inb0 \/ inb' = [])).
 
   Lemma next_cases n inb :
-    (length inb < n /\ next (Z.of_nat n) inb = ([], inb)) \/
-    (n = 0 /\ next (Z.of_nat n) inb = (inb, [])) \/
-    (1 <= n /\ n <= length inb /\ next (Z.of_nat n) inb = (firstn n inb, skipn n inb)).
+    (length inb < n /\ gnet_next (Z.of_nat n) inb = ([], inb)) \/
+    (n = 0 /\ gnet_next (Z.of_nat n) inb = (inb, [])) \/
+    (1 <= n /\ n <= length inb /\ gnet_next (Z.of_nat n) inb = (firstn n inb, skipn n inb)).
   Proof.
     destruct (Nat.lt_ge_cases (length inb) n) as [H|H]; [left; split; auto using next_short|].
     right. destruct n as [|n]; [left; split; auto using next_zero|].
@@ -569,7 +569,7 @@ Qed.
 Section Counter.
   Variable L : nat.
 
-  Definition cinv (st : cstate) : Prop := c_n st = length (c_fl st) /\ c_n st <= L.
+  Definition cinv (st : infl_state) : Prop := infl_n st = length (infl_fl st) /\ infl_n st <= L.
 
   Lemma remove_one_len q l : 0 < count_nat q l -> length (remove_one q l) = length l - 1.
   Proof.
@@ -586,66 +586,66 @@ Section Counter.
       apply Nat.eqb_eq in E2. subst x. rewrite (Nat.eqb_sym q' q), E. lia.
   Qed.
 
-  Lemma cstep_inv st e st' o : cinv st -> cstep L st e = Some (st', o) -> cinv st'.
+  Lemma cstep_inv st e st' o : cinv st -> infl_step L st e = Some (st', o) -> cinv st'.
   Proof.
-    unfold cinv, cstep. intros [H1 H2]. destruct e as [q|q].
-    - destruct (L <? S (c_n st)) eqn:E; intros X; inversion X; subst; cbn.
+    unfold cinv, infl_step. intros [H1 H2]. destruct e as [q|q].
+    - destruct (L <? S (infl_n st)) eqn:E; intros X; inversion X; subst; cbn.
       + lia.
       + apply Nat.ltb_ge in E. lia.
-    - destruct (0 <? count_nat q (c_fl st)) eqn:E; [|discriminate]. apply Nat.ltb_lt in E.
+    - destruct (0 <? count_nat q (infl_fl st)) eqn:E; [|discriminate]. apply Nat.ltb_lt in E.
       intros X; inversion X; subst; cbn. rewrite remove_one_len by exact E. lia.
   Qed.
 
-  Lemma crun_inv : forall evs st st' o, cinv st -> crun L st evs = Some (st', o) -> cinv st'.
+  Lemma crun_inv : forall evs st st' o, cinv st -> infl_run L st evs = Some (st', o) -> cinv st'.
   Proof.
     induction evs as [|e r IH]; intros st st' o Hi; cbn.
     - intros X; inversion X; subst; auto.
-    - destruct (cstep L st e) as [[st1 o1]|] eqn:E; [|discriminate].
-      destruct (crun L st1 r) as [[st2 o2]|] eqn:E2; [|discriminate].
+    - destruct (infl_step L st e) as [[st1 o1]|] eqn:E; [|discriminate].
+      destruct (infl_run L st1 r) as [[st2 o2]|] eqn:E2; [|discriminate].
       intros X; inversion X; subst. eapply IH; [|exact E2]. eapply cstep_inv; eauto.
   Qed.
 
-  Lemma cinit_inv : cinv c_init.
+  Lemma cinit_inv : cinv infl_init.
   Proof. unfold cinv. cbn. lia. Qed.
 
   (* beyond the limit: REFUSED at once, and the state (counter included) is unchanged *)
-  Lemma over_limit_refused st q : L < c_n st + 1 -> cstep L st (Arrive q) = Some (st, [ORefused q]).
+  Lemma over_limit_refused st q : L < infl_n st + 1 -> infl_step L st (InflArrive q) = Some (st, [InflRefused q]).
   Proof.
-    intros H. unfold cstep. assert (L <? S (c_n st) = true) as -> by (apply Nat.ltb_lt; lia).
+    intros H. unfold infl_step. assert (L <? S (infl_n st) = true) as -> by (apply Nat.ltb_lt; lia).
     destruct st as [n fl]. cbn. repeat f_equal. lia.
   Qed.
 
-  Lemma within_limit_admitted st q : c_n st + 1 <= L ->
-    cstep L st (Arrive q) = Some (mkC (S (c_n st)) (q :: c_fl st), [OAdmitted q]).
+  Lemma within_limit_admitted st q : infl_n st + 1 <= L ->
+    infl_step L st (InflArrive q) = Some (mkInfl (S (infl_n st)) (q :: infl_fl st), [InflAdmitted q]).
   Proof.
-    intros H. unfold cstep. assert (L <? S (c_n st) = false) as -> by (apply Nat.ltb_ge; lia). reflexivity.
+    intros H. unfold infl_step. assert (L <? S (infl_n st) = false) as -> by (apply Nat.ltb_ge; lia). reflexivity.
   Qed.
 
   (* bookkeeping: arrivals = refused + answered + still running, per query *)
-  Definition n_arrive (q : nat) (evs : list cev) : nat :=
-    length (filter (fun e => match e with Arrive x => Nat.eqb x q | _ => false end) evs).
-  Definition n_refused (q : nat) (outs : list cout) : nat :=
-    length (filter (fun o => match o with ORefused x => Nat.eqb x q | _ => false end) outs).
-  Definition n_answer (q : nat) (outs : list cout) : nat :=
-    length (filter (fun o => match o with OAnswer x => Nat.eqb x q | _ => false end) outs).
+  Definition n_arrive (q : nat) (evs : list infl_ev) : nat :=
+    length (filter (fun e => match e with InflArrive x => Nat.eqb x q | _ => false end) evs).
+  Definition n_refused (q : nat) (outs : list infl_out) : nat :=
+    length (filter (fun o => match o with InflRefused x => Nat.eqb x q | _ => false end) outs).
+  Definition n_answer (q : nat) (outs : list infl_out) : nat :=
+    length (filter (fun o => match o with InflAnswer x => Nat.eqb x q | _ => false end) outs).
 
-  Lemma cstep_account q st e st' o : cstep L st e = Some (st', o) ->
-    count_nat q (c_fl st) + n_arrive q [e] = n_refused q o + n_answer q o + count_nat q (c_fl st').
+  Lemma cstep_account q st e st' o : infl_step L st e = Some (st', o) ->
+    count_nat q (infl_fl st) + n_arrive q [e] = n_refused q o + n_answer q o + count_nat q (infl_fl st').
   Proof.
-    unfold cstep, n_arrive, n_refused, n_answer. destruct e as [x|x].
-    - destruct (L <? S (c_n st)); intros X; inversion X; subst; cbn; destruct (Nat.eqb x q); cbn; lia.
-    - destruct (0 <? count_nat x (c_fl st)) eqn:E; [|discriminate]. apply Nat.ltb_lt in E.
+    unfold infl_step, n_arrive, n_refused, n_answer. destruct e as [x|x].
+    - destruct (L <? S (infl_n st)); intros X; inversion X; subst; cbn; destruct (Nat.eqb x q); cbn; lia.
+    - destruct (0 <? count_nat x (infl_fl st)) eqn:E; [|discriminate]. apply Nat.ltb_lt in E.
       intros X; inversion X; subst; cbn. rewrite (count_remove_one q x _ E).
       destruct (Nat.eqb x q) eqn:E2; cbn; [|lia]. apply Nat.eqb_eq in E2. subst. lia.
   Qed.
 
-  Lemma crun_account q : forall evs st st' o, crun L st evs = Some (st', o) ->
-    count_nat q (c_fl st) + n_arrive q evs = n_refused q o + n_answer q o + count_nat q (c_fl st').
+  Lemma crun_account q : forall evs st st' o, infl_run L st evs = Some (st', o) ->
+    count_nat q (infl_fl st) + n_arrive q evs = n_refused q o + n_answer q o + count_nat q (infl_fl st').
   Proof.
-    induction evs as [|e r IH]; intros st st' o; cbn [crun].
+    induction evs as [|e r IH]; intros st st' o; cbn [infl_run].
     - intros X; inversion X; subst. cbn. lia.
-    - destruct (cstep L st e) as [[st1 o1]|] eqn:E; [|discriminate].
-      destruct (crun L st1 r) as [[st2 o2]|] eqn:E2; [|discriminate].
+    - destruct (infl_step L st e) as [[st1 o1]|] eqn:E; [|discriminate].
+      destruct (infl_run L st1 r) as [[st2 o2]|] eqn:E2; [|discriminate].
       intros X; inversion X; subst.
       pose proof (cstep_account q _ _ _ _ E) as A1. pose proof (IH _ _ _ E2) as A2.
       unfold n_arrive, n_refused, n_answer in *. rewrite !filter_app, !app_length.
